@@ -1,4 +1,5 @@
 import PikaVerif.Lemmas.Sem2
+import PikaVerif.Lemmas.SSem2
 /-!
 # C08 — Semaphores conserve permits and release blocked acquirers
 
@@ -240,5 +241,114 @@ example : ∃ s, runLog step (init 1 0) [.inv 0 .acq, .slAcq 0, .cvEnq 0 1 false
 example : (runLog step (init 1 0)
     [.inv 0 .timed, .slAcq 0, .cvEnq 0 1 true, .slRel 0, .sleep 0, .timeout 0, .slAcq 0,
      .cvWoke 0 true true, .slRel 0, .ret 0 false]).isSome = true := by decide
+
+end PikaVerif.C08
+
+/-! # Sliding semaphore (model `PikaVerif.SSem`) -/
+namespace PikaVerif.C08
+open PikaVerif
+
+def SReachable (s : SSem.St) : Prop := ∃ n d l log, runLog SSem.step (SSem.init n d l) log = some s
+
+/-- no event other than starting an operation / ending the program is accepted -/
+def SStuck (s : SSem.St) : Prop :=
+  ∀ e, (∀ t o, e ≠ .inv t o) → (∀ t, e ≠ .done t) → SSem.step s e = none
+
+/-- parked in `sliding_semaphore::wait(u)` with no wake-up token -/
+def SBlocked (s : SSem.St) (t : Nat) (u : Int) : Prop := s.pc t = .susp u false ∧ s.tok t = 0
+
+/-- **Progress (sliding).**  The model is only stuck when every thread is between operations,
+    finished, or parked in `wait` without a pending wake-up. -/
+theorem C08_sliding_stuck_only_when_blocked (s : SSem.St) (hr : SReachable s) (hs : SStuck s) :
+    ∀ t, t < s.n → s.pc t = .idle ∨ s.pc t = .fin ∨ ∃ u, SBlocked s t u := by
+  obtain ⟨n, d, l, log, hlog⟩ := hr
+  obtain ⟨hi, _, hlc⟩ := SSem.inv_of_accepted hlog
+  intro t htn
+  have en : ∀ e, (∀ t o, e ≠ SSem.Ev.inv t o) → (∀ t, e ≠ SSem.Ev.done t) → SSem.step s e ≠ none → False :=
+    fun e h1 h2 h3 => h3 (hs e h1 h2)
+  cases hl : s.lock with
+  | some r =>
+    exfalso
+    obtain ⟨hh, hrn⟩ := hlc r hl
+    cases hp : s.pc r <;> simp [hp, SSem.holds] at hh
+    case locked u tr c =>
+      by_cases hsat : SSem.sat s u = true
+      · exact en (.pass r u s.lower) (by simp) (by simp) (by simp [SSem.step, hrn, hl, hp, hsat])
+      · have hsf : SSem.sat s u = false := by simpa using hsat
+        cases tr with
+        | true => exact en (.slRel r) (by simp) (by simp) (by simp [SSem.step, hrn, hl, hp, hsf])
+        | false => exact en (.cvEnq r (s.queue.length + 1)) (by simp) (by simp) (by simp [SSem.step, hrn, hl, hp, hsf])
+    case lockedSig l' =>
+      exact en (.sig r (max l' s.lower) s.queue.length) (by simp) (by simp) (by simp [SSem.step, hrn, hl, hp])
+    case enq u => exact en (.slRel r) (by simp) (by simp) (by simp [SSem.step, hrn, hl, hp])
+    case relk u p =>
+      cases p
+      · exact en (.cvWoke r true) (by simp) (by simp) (by simp [SSem.step, hrn, hl, hp])
+      · exact en (.cvWoke r false) (by simp) (by simp) (by simp [SSem.step, hrn, hl, hp])
+    case passed => exact en (.slRel r) (by simp) (by simp) (by simp [SSem.step, hrn, hl, hp])
+    case refused => exact en (.slRel r) (by simp) (by simp) (by simp [SSem.step, hrn, hl, hp])
+    case sigRes i m more => exact en (.slRel r) (by simp) (by simp) (by simp [SSem.step, hrn, hl, hp])
+    case sigFin => exact en (.slRel r) (by simp) (by simp) (by simp [SSem.step, hrn, hl, hp])
+    case sigL i m =>
+      cases hq : s.queue with
+      | nil => exact en (.cvNone r) (by simp) (by simp) (by simp [SSem.step, hrn, hl, hp, hq])
+      | cons g rest =>
+        have hgq : g ∈ s.queue := by rw [hq]; simp
+        have hginQ := (hi.qIff g).1 hgq
+        have hgr : g ≠ r := by intro he; rw [he, hp] at hginQ; simp [SSem.inQ] at hginQ
+        have hnh : SSem.holds (s.pc g) = false := by
+          cases hhg : SSem.holds (s.pc g) with
+          | false => rfl
+          | true => have := hi.lockHolder g hhg; rw [hl] at this; simp at this; exact absurd this.symm hgr
+        have hsp : ∃ p', SSem.setPopped (s.pc g) = some p' := by
+          cases hpg : s.pc g <;> simp [hpg, SSem.inQ, SSem.holds] at hginQ hnh <;> simp [SSem.setPopped, hginQ]
+        obtain ⟨p', hp'⟩ := hsp
+        exact en (.popResume r rest.length g) (by simp) (by simp) (by simp [SSem.step, hrn, hl, hp, hq, hp'])
+  | none =>
+    have nh : SSem.holds (s.pc t) = false := by
+      cases hh : SSem.holds (s.pc t) with
+      | false => rfl
+      | true => have := hi.lockHolder t hh; rw [hl] at this; simp at this
+    cases hp : s.pc t <;> simp [hp, SSem.holds] at nh
+    case idle => exact Or.inl rfl
+    case fin => exact Or.inr (Or.inl rfl)
+    case want o =>
+      cases o <;> exact (en (.slAcq t) (by simp) (by simp) (by simp [SSem.step, htn, hl, hp])).elim
+    case unl u p => exact (en (.suspend t) (by simp) (by simp) (by simp [SSem.step, htn, hp])).elim
+    case susp u p =>
+      by_cases htok : 0 < s.tok t
+      · exact (en (.woke t) (by simp) (by simp) (by simp [SSem.step, htn, hp, htok])).elim
+      · cases p with
+        | true => have := hi.wake t u (Or.inr hp); omega
+        | false => exact Or.inr (Or.inr ⟨u, hp, by omega⟩)
+    case wokeNL u p => exact (en (.slAcq t) (by simp) (by simp) (by simp [SSem.step, htn, hl, hp])).elim
+    case sigNL i m => exact (en (.slAcq t) (by simp) (by simp) (by simp [SSem.step, htn, hl, hp])).elim
+    case retn r => exact (en (.ret t r) (by simp) (by simp) (by simp [SSem.step, htn, hp])).elim
+
+/-- **A blocked sliding wait proceeds once the signalled lower bound is within the configured
+    distance.**  In every reachable stuck state a thread still parked in `wait(u)` has
+    `u - max_difference > lower_limit`. -/
+theorem C08_sliding_blocked_released (s : SSem.St) (hr : SReachable s) (hs : SStuck s) (t : Nat) (u : Int)
+    (hb : SBlocked s t u) : s.lower < u - s.maxDiff := by
+  have hq := C08_sliding_stuck_only_when_blocked s hr hs
+  obtain ⟨n, d, l, log, hlog⟩ := hr
+  obtain ⟨hi, hc, _⟩ := SSem.inv_of_accepted hlog
+  have hz : SSem.budget s = 0 := by
+    apply sumTo_eq_zero
+    intro x hx
+    rcases hq x hx with h | h | ⟨v, h⟩
+    · simp [h, SSem.weight]
+    · simp [h, SSem.weight]
+    · simp [h.1, SSem.weight]
+  have hin : t ∈ s.queue := (hi.qIff t).2 (by simp [hb.1, SSem.inQ])
+  have := hc t (by rw [hz]; simpa using hin) u (by simp [hb.1, SSem.ubound])
+  simp [SSem.sat] at this
+  omega
+
+/-- non-vacuity: a waiter blocks, a signal within distance wakes it, it passes -/
+example : (runLog SSem.step (SSem.init 2 1 0)
+    [.inv 0 (.wait 5), .slAcq 0, .cvEnq 0 1, .slRel 0, .suspend 0,
+     .inv 1 (.signal 4), .slAcq 1, .sig 1 4 1, .popResume 1 0 0, .slRel 1, .ret 1 false,
+     .woke 0, .slAcq 0, .cvWoke 0 false, .pass 0 5 4, .slRel 0, .ret 0 true]).isSome = true := by decide
 
 end PikaVerif.C08
